@@ -264,6 +264,11 @@ def main(argv):
     staged = {"staged:5x1023": (first, rest)}
     cases.append(("cache", [], "staged:5x1023", first + rest, "echo"))
     cases.append(("cache", [], "staged:5x1023", first + rest, "eager"))
+    # more repeats of one line than a bounded hand-off queue of 65536 entries could hold while the only line the
+    # child must answer may still sit in cache's unflushed stream buffer (the feeder must never block on the queue)
+    for mode in ("eager", "stdio", "echo"):
+        cases.append(("cache", [], "repeat70001", b"same line\n" * 70001, mode))
+    cases.append(("cache", [], "new5000+repeat100000", b"".join(b"n%d\n" % i for i in range(5000)) + b"".join(b"n%d\n" % (i % 7) for i in range(100000)), "eager"))
     # a child that answers every line at its FIRST byte + a piece larger than the 8 KiB stream buffer (its body is
     # written through, its newline stays buffered) + stdin stalling before end of input: the collector has emitted
     # everything and waits in foldfilter's in-loop peek() when the child finishes (audit H1)
